@@ -168,6 +168,16 @@ class StoreRunner:
                     pass
         gc.collect()
 
+    def _make(self, how, **kw):
+        """StoreGen.tla EntryForms: a session is started through the factory methods create / open / append, or through the
+        public constructor with the mode given as FileMode member or as its plain string value - the same thing."""
+        TS = self.TS
+        entry = getattr(self, 'entry', 'factory')
+        if entry == 'factory':
+            return getattr(TS, how)(**kw)
+        member = {'create': TS.FileMode.CREATE, 'open': TS.FileMode.READ, 'append': TS.FileMode.APPEND}[how]
+        return TS(mode=member if entry == 'constructor' else str(member.value), **kw)
+
     def _kw(self):
         return {} if self.cache_mb is None else {'cache_size_mb': self.cache_mb}
 
@@ -186,14 +196,13 @@ class StoreRunner:
         TS = self.TS
         try:
             if op == 'create':
-                self.ts = TS.create(base_file=self.path, **self._kw())
+                self.ts = self._make('create', base_file=self.path, **self._kw())
                 return 'yes', '-', None, None
             if op == 'createmem':
-                self.ts = TS.create(**self._kw())
+                self.ts = self._make('create', **self._kw())
                 return 'yes', '-', None, None
             if op == 'open':
-                f = TS.open if arg == 'read' else TS.append
-                self.ts = f(base_file=self.path, **self._kw())
+                self.ts = self._make('open' if arg == 'read' else 'append', base_file=self.path, **self._kw())
                 return 'yes', len(self.ts), None, None
             ts = self.ts
             if op == 'close':
@@ -275,13 +284,27 @@ def classify(op, arg, has_bad_before: bool, ids_in_play: bool, internal: bool) -
     return 'C07'
 
 
-def run_behaviour(beh: dict, big=False, cache_mb=None, skip_bad=False):
+def run_behaviour(beh: dict, big=False, cache_mb=None, skip_bad=False, want=None):
     """Replay one behaviour. Returns None if it conforms, else a dict
     describing the first deviation."""
     warnings.simplefilter('ignore')
     _idr['wide'] = beh.get('idr') == 'wide'
     r = StoreRunner(big=big, cache_mb=cache_mb)
+    r.entry = beh.get('entry', 'factory')
     universe_ids = sorted({it['id'] for it in beh['added'] if it['id']} | {1, 2, 3, 7})
+    # With `want` (a property id) the replay does not stop at a deviation that belongs to another property: it is
+    # remembered, the step is left and the behaviour goes on, so that what the SAME history does to the wanted
+    # property's operations is still seen (e.g. an addition that gets the wrong index, then a lookup that fails).
+    others = []
+
+    def keep(d):
+        if want is None or d['prop'] == want or d.get('also') == want or (want == 'C10' and d.get('after_bad')):
+            if others:
+                d['desc'] += f' [after an earlier deviation of {others[0]["prop"]}: {others[0]["what"]}]'
+            return True
+        others.append(d)
+        return False
+
     try:
         r.prepare(beh['start'], beh.get('flavour'))
         has_bad = False
@@ -320,25 +343,52 @@ def run_behaviour(beh: dict, big=False, cache_mb=None, skip_bad=False):
                 has_bad = True
             if ok != ev['ok']:
                 if ok == 'no':
-                    return dev(f'raised-{err}', f'{ev["op"]}({ev["arg"]}) raised {err}: {msg}; specification: succeeds with {ev["val"]}')
-                return dev('accepted', f'{ev["op"]}({ev["arg"]}) was accepted (returned {val}); specification: refused ({ev["val"]})')
+                    _d = dev(f'raised-{err}', f'{ev["op"]}({ev["arg"]}) raised {err}: {msg}; specification: succeeds with {ev["val"]}')
+                    if keep(_d):
+                        return _d
+                    continue
+                _d = dev('accepted', f'{ev["op"]}({ev["arg"]}) was accepted (returned {val}); specification: refused ({ev["val"]})')
+                if keep(_d):
+                    return _d
+                continue
             if ok == 'no' and internal:
-                return dev(f'internal-{err}', f'{ev["op"]}({ev["arg"]}) refused with internal error {err}: {msg}')
+                _d = dev(f'internal-{err}', f'{ev["op"]}({ev["arg"]}) refused with internal error {err}: {msg}')
+                if keep(_d):
+                    return _d
+                continue
             if ok == 'no' and ev['op'] == 'get' and err != 'IndexError':
-                return dev(f'raised-{err}', f'out-of-range get({ev["arg"]}) raised {err}, not IndexError')
+                _d = dev(f'raised-{err}', f'out-of-range get({ev["arg"]}) raised {err}, not IndexError')
+                if keep(_d):
+                    return _d
+                continue
             if ok == 'yes' and ev['op'] in ('get', 'getflight', 'iter', 'len') and val != ev['val']:
-                return dev('wrong-result', f'{ev["op"]}({ev["arg"]}) returned {val}; specification: {ev["val"]}')
+                _d = dev('wrong-result', f'{ev["op"]}({ev["arg"]}) returned {val}; specification: {ev["val"]}')
+                if keep(_d):
+                    return _d
+                continue
             if ok == 'yes' and ev['op'] == 'add' and ev['arg'] != '-' and val != ev['val']:
-                return dev('wrong-index', f'add returned index {val}; specification: {ev["val"]}')
+                _d = dev('wrong-index', f'add returned index {val}; specification: {ev["val"]}')
+                if keep(_d):
+                    return _d
+                continue
             if ok == 'yes' and ev['op'] == 'open' and val != ev['val']:
-                return dev('wrong-len', f'open: length {val}; specification: {ev["val"]}')
+                _d = dev('wrong-len', f'open: length {val}; specification: {ev["val"]}')
+                if keep(_d):
+                    return _d
+                continue
             if r.ts is not None and ev['op'] not in ('close',):
                 try:
                     n = len(r.ts)
                 except Exception as e:
-                    return dev('len-raised', f'len() raised {type(e).__name__}: {e}')
+                    _d = dev('len-raised', f'len() raised {type(e).__name__}: {e}')
+                    if keep(_d):
+                        return _d
+                    continue
                 if n != step['n']:
-                    return dev('len-after', f'after {ev["op"]}({ev["arg"]}) len() = {n}; specification: {step["n"]}')
+                    _d = dev('len-after', f'after {ev["op"]}({ev["arg"]}) len() = {n}; specification: {step["n"]}')
+                    if keep(_d):
+                        return _d
+                    continue
         # epilogue: close, reopen for reading, compare with the reference list
         final = {'op': 'epilogue', 'arg': '-'}
 
@@ -390,18 +440,19 @@ def run_behaviour(beh: dict, big=False, cache_mb=None, skip_bad=False):
                     if got != want:
                         return fdev('C08', 'reopen-getflight', f'after reopen get_flight({fid}) = {got}; specification: {want}')
             r.force_close()
-        return None
+        return others[0] if others else None
     finally:
         r.cleanup()
 
 
 def _work(job):
-    beh, big, cache_mb = job
+    beh, big, cache_mb, *rest = job
+    want = rest[0] if rest else None
     try:
-        d = run_behaviour(beh, big=big, cache_mb=cache_mb)
+        d = run_behaviour(beh, big=big, cache_mb=cache_mb, want=want)
         if d is not None and d['after_bad'] and d['op'] != 'addbad':
             # does the deviation disappear when the rejected additions are left out?
-            d2 = run_behaviour(beh, big=big, cache_mb=cache_mb, skip_bad=True)
+            d2 = run_behaviour(beh, big=big, cache_mb=cache_mb, skip_bad=True, want=want)
             if d2 is None:
                 # a rejected addition that leaves a trace is C10's clause; what then goes wrong (length, index,
                 # iteration, lookup) is at the same time a violation of the property the operation belongs to
@@ -508,7 +559,7 @@ def replay_store(ctx, behaviours, pid: str, big=False, cache_mb=None):
     """Replay behaviours (in parallel worker processes); report deviations
     belonging to property pid."""
     others = dict(ctx.extra.get('deviations_belonging_to_other_properties', {}))
-    results = pmap(_work, [(b, big, cache_mb) for b in behaviours])
+    results = pmap(_work, [(b, big, cache_mb, pid) for b in behaviours])
     for beh, d in zip(behaviours, results):
         ops = [s['ev']['op'] for s in beh['h']]
         ctx.case_done(beh['h'], nontrivial=('open' in ops or 'evict' in ops or 'addbad' in ops))
